@@ -6,6 +6,10 @@
         p (Pop)  pw (report on the oldest unreported Pop)          e (End)  ew (same for End)
         n (Count)                                                  x<k> (peer k closes)
    Result: one token per op, then closed flags of all peers, melt flag, blocked threads.
+           !racy      the outcome depends on the Go scheduler (not compared)
+           !fuel      a run to quiescence ran out of fuel: the adapter never takes a state in which some thread
+                      can still move for a settled one
+           !disabled  the adapter asked for a step of the machine that was not enabled
    The watchdog value is used by the Go driver only. *)
 From Coq Require Import List NArith Bool Arith String.
 From Snow Require Import Lib.Wire Model.Peers.
@@ -18,16 +22,17 @@ Record ist := mkI {
   elist : list nat;      (* enders started and not yet reported, oldest first *)
   colm : bool;           (* the parked Catch was released with a peer after End had begun *)
   racy : bool;           (* the script reached a situation whose outcome depends on scheduling *)
-  dead : bool            (* a call panicked *)
+  dead : bool;           (* a call panicked *)
+  nofuel : bool;         (* a settle stopped because its fuel ran out, not because everything was blocked *)
+  disabled : bool        (* the adapter asked the machine for a step that is not enabled *)
 }.
 
 Definition fuel_of (s : state) : nat :=
   (100 + 4 * List.length (chan s) + 16 * (List.length (pops s) + List.length (ends s)))%nat.
 
-Definition settle' (v : version) (s : state) : state := settle v (fuel_of s) s.
-
-Definition step' (v : version) (s : state) (l : label) : state :=
-  match step v s l with Some s' => s' | None => s end.
+(* nothing can move: every thread has returned or is blocked (an in-flight Catch stays in flight) *)
+Definition settled (v : version) (s : state) : bool :=
+  match settle_once v s with None => true | Some _ => false end.
 
 Definition nat_print (n : nat) : bytes := dec_print (N.of_nat n).
 
@@ -40,12 +45,35 @@ Definition cres_print (m : bool) (r : cres) : bytes :=
   | R_Aborted => if m then bs "m" else bs "aborted"
   end.
 
+Definition with_st (a : ist) (s : state) : ist :=
+  mkI s (plist a) (elist a) (colm a) (racy a) (panicked s) (nofuel a) (disabled a).
+Definition mark_racy (a : ist) : ist :=
+  mkI (st a) (plist a) (elist a) (colm a) true (dead a) (nofuel a) (disabled a).
+Definition set_colm (a : ist) (m : bool) : ist :=
+  mkI (st a) (plist a) (elist a) m (racy a) (dead a) (nofuel a) (disabled a).
+Definition set_plist (a : ist) (l : list nat) : ist :=
+  mkI (st a) l (elist a) (colm a) (racy a) (dead a) (nofuel a) (disabled a).
+Definition set_elist (a : ist) (l : list nat) : ist :=
+  mkI (st a) (plist a) l (colm a) (racy a) (dead a) (nofuel a) (disabled a).
+
+(* run to quiescence; running out of fuel first is recorded, never passed off as quiescence *)
+Definition a_settle (v : version) (a : ist) : ist :=
+  let s' := settle v (fuel_of (st a)) (st a) in
+  mkI s' (plist a) (elist a) (colm a) (racy a) (panicked s') (nofuel a || negb (settled v s')) (disabled a).
+
+(* one step the script calls for; a step that is not enabled is recorded, never skipped silently *)
+Definition a_step (v : version) (a : ist) (l : label) : ist :=
+  match step v (st a) l with
+  | Some s' => with_st a s'
+  | None => mkI (st a) (plist a) (elist a) (colm a) (racy a) (dead a) (nofuel a) true
+  end.
+
 (* report on the collector; a returned call is forgotten *)
 Definition col_report (v : version) (a : ist) : ist * bytes :=
   let s := st a in
   match col s with
   | C_Idle => (a, bs "nocall")
-  | C_Done r => (mkI (step' v s Col_return) (plist a) (elist a) false (racy a) (dead a), cres_print (colm a) r)
+  | C_Done r => (set_colm (a_step v a Col_return) false, cres_print (colm a) r)
   | C_Catching => (a, bs "catching")
   | _ => (a, bs "blocked")
   end.
@@ -67,9 +95,6 @@ Definition end_result (s : state) (i : nat) : option bytes :=
   | _ => None
   end.
 
-Definition with_st (a : ist) (s : state) : ist := mkI s (plist a) (elist a) (colm a) (racy a) (panicked s).
-Definition mark_racy (a : ist) : ist := mkI (st a) (plist a) (elist a) (colm a) true (dead a).
-
 Definition is_catching (s : state) : bool := match col s with C_Catching => true | _ => false end.
 Definition is_idle (s : state) : bool := match col s with C_Idle => true | _ => false end.
 Definition is_sending (s : state) : bool := match col s with C_Sending _ => true | _ => false end.
@@ -80,53 +105,53 @@ Definition op_exec (v : version) (a : ist) (op : bytes) : option (ist * bytes) :
   if beq op (bs "c+") || beq op (bs "c-") || beq op (bs "cb") then
     if negb (is_idle s) then Some (a, bs "skip") else
     match step v s Col_lock with
-    | None => Some (mark_racy a, bs "skip")
+    | None => Some (mark_racy a, bs "skip")       (* the lock is held by an End: who gets it next is the scheduler's choice *)
     | Some s1 =>
-        let s2 := settle' v s1 in
-        let s3 := if beq op (bs "cb") then s2
-                  else if is_catching s2
-                       then settle' v (step' v s2 (if beq op (bs "c+") then Catch_ok else Catch_err))
-                       else s2 in
-        Some (col_report v (with_st a s3))
+        let a2 := a_settle v (with_st a s1) in
+        let a3 := if beq op (bs "cb") then a2
+                  else if is_catching (st a2)
+                       then a_settle v (a_step v a2 (if beq op (bs "c+") then Catch_ok else Catch_err))
+                       else a2 in
+        Some (col_report v a3)
     end
   else if beq op (bs "g+") || beq op (bs "g-") then
     if negb (is_catching s) then Some (a, bs "skip") else
     let ok := beq op (bs "g+") in
     let a1 := if ok && melted s && existsb (pop_pending s) (plist a) then mark_racy a else a in
-    let s1 := settle' v (step' v s (if ok then Catch_ok else Catch_err)) in
-    Some (col_report v (mkI s1 (plist a1) (elist a1) (ok && melted s) (racy a1) (panicked s1)))
+    let a2 := a_settle v (a_step v a1 (if ok then Catch_ok else Catch_err)) in
+    Some (col_report v (set_colm a2 (ok && melted s)))
   else if beq op (bs "cw") then Some (col_report v a)
   else if beq op (bs "p") then
     let a1 := if existsb (pop_pending s) (plist a) || (melted s && is_sending s) then mark_racy a else a in
     let i := List.length (pops s) in
-    let s1 := settle' v (step' v s Pop_call) in
-    match pop_result s1 i with
-    | Some r => Some (with_st a1 s1, r)
-    | None => Some (mkI s1 (plist a1 ++ [i]) (elist a1) (colm a1) (racy a1) (panicked s1), bs "blocked")
+    let a2 := a_settle v (a_step v a1 Pop_call) in
+    match pop_result (st a2) i with
+    | Some r => Some (a2, r)
+    | None => Some (set_plist a2 (plist a2 ++ [i]), bs "blocked")
     end
   else if beq op (bs "pw") then
     match plist a with
     | [] => Some (a, bs "nocall")
     | i :: rest =>
         match pop_result s i with
-        | Some r => Some (mkI s rest (elist a) (colm a) (racy a) (dead a), r)
+        | Some r => Some (set_plist a rest, r)
         | None => Some (a, bs "blocked")
         end
     end
   else if beq op (bs "e") then
     let i := List.length (ends s) in
-    let s1 := settle' v (step' v s End_call) in
-    if panicked s1 then Some (with_st a s1, bs "panic") else
-    match end_result s1 i with
-    | Some r => Some (with_st a s1, r)
-    | None => Some (mkI s1 (plist a) (elist a ++ [i]) (colm a) (racy a) (panicked s1), bs "blocked")
+    let a2 := a_settle v (a_step v a End_call) in
+    if panicked (st a2) then Some (a2, bs "panic") else
+    match end_result (st a2) i with
+    | Some r => Some (a2, r)
+    | None => Some (set_elist a2 (elist a2 ++ [i]), bs "blocked")
     end
   else if beq op (bs "ew") then
     match elist a with
     | [] => Some (a, bs "nocall")
     | i :: rest =>
         match end_result s i with
-        | Some r => Some (mkI s (plist a) rest (colm a) (racy a) (dead a), r)
+        | Some r => Some (set_elist a rest, r)
         | None => Some (a, bs "blocked")
         end
     end
@@ -137,8 +162,8 @@ Definition op_exec (v : version) (a : ist) (op : bytes) : option (ist * bytes) :
       match dec_parse_nat k with
       | Some k =>
           match step v s (Peer_closes k) with
-          | Some s1 => Some (with_st a (settle' v s1), bs "x")
-          | None => Some (a, bs "-")
+          | Some s1 => Some (a_settle v (with_st a s1), bs "x")
+          | None => Some (a, bs "-")                 (* no such peer: the driver answers "-" as well *)
           end
       | None => None
       end
@@ -176,8 +201,12 @@ Definition summary (a : ist) : bytes :=
   nat_print (count_true (map (end_pending s) (elist a))).
 
 Definition run_script (v : version) (max : nat) (ops : list bytes) : bytes :=
-  match ops_exec v (mkI (init max) [] [] false false false) ops with
-  | Some (a, rs) => if racy a then bs "!racy" else list_print rs ++ summary a
+  match ops_exec v (mkI (init max) [] [] false false false false false) ops with
+  | Some (a, rs) =>
+      if nofuel a then bs "!fuel"
+      else if disabled a then bs "!disabled"
+      else if negb (dead a) && negb (settled v (st a)) then bs "!fuel"
+      else if racy a then bs "!racy" else list_print rs ++ summary a
   | None => ERR_BADCASE
   end.
 
